@@ -70,7 +70,7 @@ def main():
             na.append({"property_id": pid, "reason": NOT_YET})
     man = {
         "version": 1,
-        "setup_cmd": "cd /verif/lean && lake build",
+        "setup_cmd": "/verif/tools/setup.sh",
         "hooks": {
             "guard": "VOPY_VERIF",
             "enable": "no source hooks are needed; checks export VOPY_VERIF=1 and monkeypatch module namespaces from the harness only",
